@@ -505,3 +505,50 @@ class AbsInterp:
 
     def states_at(self, node):
         return [dict(w) for w in self.W[node]]
+
+
+def deps(expr, node, defs, _seen=None, depth=0):
+    """Backward slice of an expression through local reaching definitions:
+    the set of dotted names (parameters, attribute chains, globals) it depends on."""
+    _seen = _seen if _seen is not None else set()
+    out = set()
+    if expr is None:
+        return out
+    todo = []
+    for n in ast.walk(expr):
+        if isinstance(n, ast.Call) and call_name(n) == "getattr" and len(n.args) >= 2 and isinstance(n.args[1], ast.Constant) \
+                and isinstance(n.args[1].value, str):
+            # getattr(x, 'f', default)  ==  x.f
+            for b in deps(n.args[0], node, defs, _seen, depth + 1):
+                out.add(b + "." + n.args[1].value)
+        if isinstance(n, (ast.Name, ast.Attribute)):
+            d = dotted(n)
+            if d:
+                todo.append(d)
+    # keep only maximal chains (a.b.c but not a.b, a)
+    maximal = [d for d in set(todo) if not any(o != d and o.startswith(d + ".") for o in todo)]
+    for d in maximal:
+        base = d.split(".")[0]
+        rd = defs.reaching(node, d) or defs.reaching(node, base)
+        real = [x for x in rd if x.kind != "param"]
+        if not real or depth > 12:
+            out.add(d)
+            continue
+        suffix = d[len(base):] if not defs.reaching(node, d) else ""
+        for df in real:
+            key = (id(df), d)
+            if key in _seen:
+                continue
+            _seen.add(key)
+            if df.kind == "aug":
+                sub = deps(df.stmt.value, df.node, defs, _seen, depth + 1) | deps(df.stmt.target, df.node, defs, _seen, depth + 1)
+            elif df.value is None:
+                sub = {d}
+            else:
+                sub = deps(df.value, df.node, defs, _seen, depth + 1)
+            if df.kind in ("iter", "unpack"):
+                sub = {s + "[*]" for s in sub}
+            out |= {s + suffix for s in sub} if suffix else sub
+        if any(x.kind == "param" for x in rd):
+            out.add(d)
+    return out
